@@ -38,10 +38,13 @@ bool prop(Tape &t, Report &R) {
     R.discard("no movable cell");
     return true;
   }
-  if (!judge(s, params, R, true)) return false;
-  // occasionally also a large companion instance (size-dependent code paths);
-  // decided at the very end of the tape so that older tapes keep their meaning
+  // decided at the very end of the tape so that older tapes keep their meaning (nothing is read
+  // while a case is judged): a large companion, an object history, a movable cell lower than a row
   uint32_t tail = t.next();
+  uint32_t hw = t.next();
+  if (addShortMovable(s, t.next())) R.classify("cells:movable-cell-lower-than-a-row");
+  if (!judge(s, params, R, true)) return false;
+  // occasionally also a large companion instance (size-dependent code paths)
   if (tail % 24 == 1) {
     CircuitSpec big = genLargeCircuit(tail, o);
     if (big.nbMovable() > 0) {
@@ -53,7 +56,6 @@ bool prop(Tape &t, Report &R) {
   }
   // object history (decided after everything else): the same contents on a Circuit object that
   // was legalized before with its fixed cells elsewhere and then modified through its setters
-  uint32_t hw = t.next();
   if (hw % 3 == 1) {
     std::string route;
     Circuit h = buildWithHistory(s, hw, [&](Circuit &c) { c.legalize(params); }, &route);
